@@ -322,8 +322,9 @@ theorem pi_from_body_apply (θ : Theta ℝ) :
   simp only [bodyOfTheta, hp, bodyOfPi, piOfCompiled, Pi.mk.injEq, Mat3.mk.injEq]
   refine ⟨trivial, ?_, ?_, ?_, ?_, ?_, ?_, ?_, ?_, ?_, ?_, ?_, ?_⟩ <;> field_simp <;> ring
 
-/-- other bodies: when the caller's option already was `AUTO`, every other body compiles exactly as
-    before the call (the option is the only spec-global thing the call writes). -/
+/-- Helper / informational only (not a clause of C47, which speaks about the target body): when the
+    caller's option already was `AUTO`, every other body compiles exactly as before the call (the option
+    is the only spec-global thing the call writes). -/
 theorem other_body_unchanged_of_auto (env env' : CompileEnv ℝ) (s s1 : SpecState ℝ) (θ : Theta ℝ)
     (b' : SpecBody ℝ) (h0 : s.ifg = .auto) (happly : applyTheta env s θ = .ok s1) :
     compileBody env' s1.ifg b' = compileBody env' s.ifg b' := by
